@@ -14,6 +14,7 @@ import (
 	"sort"
 	"strconv"
 	"strings"
+	"time"
 	"unicode"
 	"unicode/utf8"
 )
@@ -33,7 +34,7 @@ var nativeFuncs = map[string]any{
 	"strings.Trim": strings.Trim, "strings.TrimRight": strings.TrimRight, "strings.TrimLeft": strings.TrimLeft,
 	"strings.Fields": strings.Fields, "strings.Repeat": strings.Repeat, "strings.EqualFold": strings.EqualFold,
 	"strings.Count": strings.Count, "strings.Compare": strings.Compare, "strings.Cut": strings.Cut,
-	"strings.Title": strings.Title,
+	"strings.Title":      strings.Title,
 	"path/filepath.Join": filepath.Join, "path/filepath.Dir": filepath.Dir, "path/filepath.Ext": filepath.Ext,
 	"path/filepath.Base": filepath.Base, "path/filepath.Clean": filepath.Clean, "path/filepath.IsAbs": filepath.IsAbs,
 	"path/filepath.Rel": filepath.Rel, "path/filepath.Split": filepath.Split, "path/filepath.ToSlash": filepath.ToSlash,
@@ -47,13 +48,14 @@ var nativeFuncs = map[string]any{
 	"unicode.IsUpper": unicode.IsUpper, "unicode.IsLower": unicode.IsLower, "unicode.ToLower": unicode.ToLower, "unicode.ToUpper": unicode.ToUpper,
 	"unicode/utf8.RuneCountInString": utf8.RuneCountInString, "unicode/utf8.ValidString": utf8.ValidString,
 	"unicode/utf8.RuneLen": utf8.RuneLen,
-	"sort.Strings": nil, // handled by externals
+	"sort.Strings":         nil, // handled by externals
 }
 
 // functions returning (T, error): the error is converted to an engine error value
 var nativeErrFuncs = map[string]any{
 	"strconv.Atoi": strconv.Atoi, "strconv.ParseInt": strconv.ParseInt, "strconv.ParseUint": strconv.ParseUint,
 	"strconv.ParseBool": strconv.ParseBool, "strconv.ParseFloat": strconv.ParseFloat, "strconv.Unquote": strconv.Unquote,
+	"time.ParseDuration": func(s string) (int64, error) { d, err := time.ParseDuration(s); return int64(d), err },
 	"path/filepath.Abs": func(p string) (string, error) {
 		if filepath.IsAbs(p) {
 			return filepath.Clean(p), nil
